@@ -78,7 +78,9 @@ def T.ids (t : T) : List Nat := t.att.map (·.id)
 /-- `canAttachOrRemove`: (attach, remove, wait-list additions) -/
 def canAttach (t : T) (c : Change) (addToWait : Bool) : Bool × Bool × List (Nat × Nat) :=
   let missing := c.prevs.filter (fun p => !t.has p)
-  if !missing.isEmpty then (false, false, if addToWait then missing.map (fun p => (p, c.id)) else [])
+  -- only the root has no previous ids; any other change without them is dropped (never attached)
+  if c.prevs.isEmpty then (false, true, [])
+  else if !missing.isEmpty then (false, false, if addToWait then missing.map (fun p => (p, c.id)) else [])
   else if !t.has c.snap then (false, true, [])
   else (true, false, [])
 
@@ -156,6 +158,18 @@ def add (t0 : T) (batch : List Change) : AddResult :=
       let t' := { t with lastIter := lastOf (headsOf t.att (iter r t.att)) r }
       if t0.att.isEmpty then ⟨t', .rebuild, t.added⟩
       else ⟨t', if appendOk t0 t batch then .append else .rebuild, t.added⟩
+
+/-! ### building from storage (`treeBuilder.build`: reopen, `rebuildFromStorage(nil, nil, nil)`) -/
+
+/-- `treeBuilder.buildWithAdded` without new changes: take the stored sequence from the root snapshot on (the
+`GetAfterOrder(snapshot.OrderId)` query, `≥`), and `AddFast` it into an empty tree: the first loaded change
+becomes the root, the others are attached when their previous ids are; then `updateHeads`, `clearUnattached`. -/
+def buildFromStorage (stored : List Change) (rootId : Nat) : T :=
+  let loaded := stored.dropWhile (·.id != rootId)
+  let t := addAll {} loaded
+  match t.root with
+  | none => t
+  | some r => { t with unatt := [], added := [], lastIter := lastOf (headsOf t.att (iter r t.att)) r }
 
 /-! ### reduce (`reduceTree`, `makeRootAndRemove`) -/
 
